@@ -135,18 +135,20 @@ class Ctx:
         return env.rel(self.sb, p)
 
     # user-side effects ----------------------------------------------------
-    def user_write(self, path, data):
+    def user_write(self, path, data, fixed_stamp=False):
+        """fixed_stamp: a timestamp-preserving generator (SOURCE_DATE_EPOCH style): every
+        version of this file gets the same mtime, so only HASH can see a content change"""
         if self.real:
             mon = self.monitor
             if mon is not None:
                 mon.enter_user()
             try:
-                env.write_file(path, data)
+                env.write_file(path, data, env.fixed_stamp(path) if fixed_stamp else None)
             finally:
                 if mon is not None:
                     mon.exit_user()
         else:
-            self.mb_getter().user_write(path, data)
+            self.mb_getter().user_write(path, data, fixed_stamp)
         with self.lock:
             self.written[path] = data
 
@@ -323,7 +325,8 @@ def run_body(ctx, fr, body, acc):
             raise e
         elif op == 'write':
             salt = s[1] if len(s) > 1 else ''
-            ctx.user_write(fr.target, (acc + salt).encode('utf-8'))
+            wopts = s[2] if len(s) > 2 else {}
+            ctx.user_write(fr.target, (acc + salt).encode('utf-8'), wopts.get('stamp') == 'fixed')
         elif op == 'ret':
             fr.ret = s[1]
             fr.has_ret = True
